@@ -417,6 +417,8 @@ class Interp:
                     sub = (mod.name + "." + a.name)
                     if sub in self.program.modules:
                         v = self.module(sub)
+                    elif getattr(mod, "ext_fallback", None):
+                        v = self.getattr(mod, a.name, s)
                     else:
                         raise AbsRaise(self.make_exc("ImportError", f"cannot import {a.name}"), self.site(s), True)
             else:
@@ -1229,7 +1231,7 @@ class Interp:
         if isinstance(obj, Ext):
             return self.ext_child(obj, f"[{show(idx)}]")
         if isinstance(obj, (ClassV, BuiltinV)):
-            return obj  # generic alias  X[T]
+            return self.models.generic_alias(self, obj, idx)  # generic alias  X[T]
         if isinstance(obj, Obj):
             c, f = obj.cls.lookup("__getitem__")
             if f is not None:
